@@ -7,8 +7,34 @@ from harness import core, sched, tsconc
 from harness.core import Check, Finding
 
 KINDS = ['cookies', 'headers', 'status', 'raised', 'errpage', 'crash', 'body',
-         'notfound', 'notallowed', 'badpath', 'empty', 'head', 's204']
+         'notfound', 'notallowed', 'badpath', 'empty', 'head', 's204',
+         'toolarge', 'badjson', 'errjson', 'crashjson', 'copyhdr']
 QUICK_KINDS = ['cookies', 'headers', 'status', 'raised', 'errpage', 'body']
+
+# application configurations (DESIGN.md 6/C08 kinds "error page"): plain, debug pages, custom
+# @app.error handlers that look at app.response, before/after_request hooks that write and read it
+CFGS = {
+    'plain': dict(debug=False, custom=[], before=[], after=[]),
+    'debug': dict(debug=True, custom=[], before=[], after=[]),
+    'custom': dict(debug=False, custom=[400, 413, 418], before=[], after=[]),
+    'hooks': dict(debug=False, custom=[],
+                  before=[('sethdr', 'X-Own', 'hook'), ('path',)],
+                  after=[('rdstatus',), ('rdhdr', 'X-Own'), ('path',), ('rdhdr', 'Content-Type')]),
+    'debughooks': dict(debug=True, custom=[413],
+                       before=[('sethdr', 'X-Own', 'hook')],
+                       after=[('rdstatus',), ('rdhdr', 'X-Own'), ('query', 'q')]),
+}
+
+# pairs of requests that end on an object shared by everybody (the mapped errors of errors_map) or
+# on error pages that show the exception, with the configuration of the application
+ERROR_PAIRS = [
+    ('toolarge', 'toolarge', 'debug'), ('toolarge', 'toolarge', 'custom'), ('badjson', 'badjson', 'debug'),
+    ('toolarge', 'badjson', 'plain'), ('badjson', 'toolarge', 'custom'), ('errjson', 'toolarge', 'debug'),
+    ('toolarge', 'errjson', 'plain'), ('crash', 'toolarge', 'debug'), ('toolarge', 'crashjson', 'debug'),
+    ('crashjson', 'errjson', 'debug'), ('cookies', 'toolarge', 'hooks'), ('toolarge', 'headers', 'hooks'),
+    ('status', 'raised', 'hooks'), ('raised', 'status', 'debughooks'), ('copyhdr', 'headers', 'plain'),
+    ('headers', 'copyhdr', 'hooks'),
+]
 
 
 def mk(kind, p, rid, app=1):
@@ -47,26 +73,55 @@ def mk(kind, p, rid, app=1):
         r['ops'] = [('path',), ('sethdr', 'X-H', 'h%d' % p), ('method',)]
     elif kind == 's204':
         r['ops'] = [('status', 204), ('sethdr', 'X-N', 'n%d' % p)]
+    elif kind == 'toolarge':
+        # body over max_memfile_size: request.forms ends on the shared errors_map[BodySizeError]
+        r.update(method='POST', body='f=' + 'x' * (tsconc.MEMFILE_MAX + 8 + p), ctype='application/x-www-form-urlencoded')
+        r['ops'] = [('sethdr', 'X-Own', 'o%d' % p), ('path',)]
+        r['out'] = ('failform',)
+        if p % 2:
+            r['hdrs'] = dict(r['hdrs'], Accept='application/json')
+    elif kind == 'badjson':
+        # not JSON: request.json ends on the shared errors_map[BodyParsingError]
+        r.update(method='POST', body='{bad%d' % p, ctype='application/json')
+        r['ops'] = [('sethdr', 'X-Own', 'o%d' % p), ('query', 'q')]
+        r['out'] = ('failjson',)
+        if p % 2 == 0:
+            r['hdrs'] = dict(r['hdrs'], Accept='application/json')
+    elif kind == 'errjson':
+        r['hdrs'] = dict(r['hdrs'], Accept='application/json')
+        r['ops'] = [('sethdr', 'X-Own', 'o%d' % p), ('query', 'q')]
+        r['out'] = ('error', 418, 'teapot%d' % p)
+    elif kind == 'crashjson':
+        r['hdrs'] = dict(r['hdrs'], Accept='application/json')
+        r['ops'] = [('path',)]
+        r['out'] = ('crash',)
+    elif kind == 'copyhdr':
+        # the cached header view, a copy, edits of the copy: the original must not move
+        r['ops'] = [('header', 'X-K'), ('cookie', 'c'), ('copy',), ('cset', 0, 'HTTP_X_K', 'edited%d' % p),
+                    ('cheader', 0, 'X-K'), ('header', 'X-K'), ('cset', 0, 'HTTP_COOKIE', 'c=zz'), ('cookie', 'c'),
+                    ('cset', 0, 'QUERY_STRING', 'q=zz'), ('query', 'q'), ('cset', 0, 'PATH_INFO', '/zz'),
+                    ('cpath', 0), ('path',), ('envget', 'HTTP_X_K')]
     else:
         raise ValueError(kind)
     return r
 
 
-def base_case(kinds):
+def base_case(kinds, cfg='plain'):
     """one fresh application, thread i serves a request of kinds[i-1]"""
     return dict(apps=[1], threads={i + 1: [('serve', mk(k, i + 1, i + 1))] for i, k in enumerate(kinds)},
-                switches=[])
+                switches=[], cfg={1: CFGS[cfg]})
 
 
 # --------------------------------------------------------------------------------------
 # the oracle: every thread's observations equal those of its request served alone
 
-def solo_obs(req, cache):
-    key = json.dumps(req, sort_keys=True)
+def solo_obs(req, cache, cfg=None):
+    """the request served alone, on a fresh application, in a forked child of this (so far untouched)
+    process: nothing a concurrent run may have left in module level objects can reach the reference"""
+    key = json.dumps([req, cfg], sort_keys=True)
     if key not in cache:
-        case = dict(apps=[req['app']], threads={1: [('serve', req)]}, switches=[])
-        w = tsconc.run_case(case)
-        cache[key] = w.obs.get(1, [])
+        case = dict(apps=[req['app']], threads={1: [('serve', req)]}, switches=[], cfg=cfg or {})
+        cache[key] = tsconc.pristine(lambda: tsconc.run_case(case).obs.get(1, []))
     return cache[key]
 
 
@@ -101,7 +156,7 @@ def check_case(case, w, cache):
         expect = []
         for it in case['threads'][tid]:
             if it[0] == 'serve':
-                expect += solo_obs(it[1], cache)
+                expect += solo_obs(it[1], cache, case.get('cfg'))
         got = w.obs.get(tid, [])
         k = diff_key(got, expect)
         if k:
@@ -120,13 +175,18 @@ def run_one(case, cache):
 
 def shard(args):
     """worker: one base case and its schedules"""
-    kinds, mode, seed, count = args
+    kinds, mode, seed, count = args[:4]
+    cfg = args[4] if len(args) > 4 else 'plain'
     cache = {}
     out = {}
     finds = []
     stats = dict(schedules=0, points=0)
-    base = base_case(kinds)
+    base = base_case(kinds, cfg)
     try:
+        # the references first, while this process has not run anything concurrently
+        for tid in sorted(base['threads']):
+            for it in base['threads'][tid]:
+                solo_obs(it[1], cache, base.get('cfg'))
         line, ans, bad, w0 = run_one(base, cache)
         order = w0.sched.order
         total = w0.sched.step
@@ -146,13 +206,13 @@ def shard(args):
                 npre = rng.randint(2, 6)
                 pts = sorted(rng.sample(range(1, total + 1), min(npre, total)))
                 cases.append([(p, rng.randint(1, n)) for p in pts])
-        out[(line, ans)] = dict(kinds=kinds, switches=[])
+        out[(line, ans)] = dict(kinds=kinds, cfg=cfg, switches=[])
         for sw in cases:
             c = dict(base, switches=sw)
             line, ans, bad, w = run_one(c, cache)
             stats['schedules'] += 1
             if (line, ans) not in out:
-                out[(line, ans)] = dict(kinds=kinds, switches=sw)
+                out[(line, ans)] = dict(kinds=kinds, cfg=cfg, switches=sw)
             if bad:
                 finds.append((bad[0], bad[1], dict(case=c)))
         labels = tsconc.labels_by_thread(w0.sched.events)
@@ -160,6 +220,8 @@ def shard(args):
                     base=(tsconc.case_line(base, [t for t, _ in w0.sched.events], op='labels'), labels))
     except sched.SchedTimeout as e:
         return dict(ok=False, err='scheduler timeout: %s' % e)
+    except tsconc.ChildFailed as e:
+        return dict(ok=False, err='reference run failed: %s' % e)
 
 
 def run_shards(jobs, procs=None, timeout=900, fn=None):
@@ -168,7 +230,7 @@ def run_shards(jobs, procs=None, timeout=900, fn=None):
     if len(jobs) <= 1 or procs <= 1:
         return [fn(j) for j in jobs]
     ctx = multiprocessing.get_context('fork')
-    pool = ctx.Pool(min(procs, len(jobs)))
+    pool = ctx.Pool(min(procs, len(jobs)), maxtasksperchild=1)    # every shard starts from this process' state
     try:
         res = pool.map_async(fn, jobs, chunksize=1).get(timeout=timeout)
     except multiprocessing.TimeoutError:
@@ -228,17 +290,24 @@ class C08(Check):
         jobs = []
         for a in kinds:
             for b in kinds:
-                jobs.append(((a, b), 'single', 0, 0))
+                jobs.append(((a, b), 'single', 0, 0, 'plain'))
+        for a, b, cfg in ERROR_PAIRS:
+            jobs.append(((a, b), 'single', 0, 0, cfg))
+        if thorough:
+            for a, b, cfg in ERROR_PAIRS:
+                for c2 in CFGS:
+                    if c2 != cfg:
+                        jobs.append(((a, b), 'single', 0, 0, c2))
         nrand = 24 * n
         for i in range(nrand):
             k = rng.choice([2, 3, 3])
             ks = tuple(rng.choice(KINDS) for _ in range(k))
-            jobs.append((ks, 'random', rng.randrange(1 << 30), 40 if not thorough else 120))
+            jobs.append((ks, 'random', rng.randrange(1 << 30), 40 if not thorough else 120, rng.choice(sorted(CFGS))))
         if n >= 2 and not thorough:      # escalated quick run: the remaining kinds as well
             for a in KINDS:
                 for b in KINDS:
                     if a not in QUICK_KINDS or b not in QUICK_KINDS:
-                        jobs.append(((a, b), 'single', 0, 0))
+                        jobs.append(((a, b), 'single', 0, 0, 'plain'))
         return jobs
 
     def _run(self, rng, n):
@@ -306,12 +375,12 @@ class C08(Check):
         cache = {}
         for s in seeds[:50]:
             try:
-                c = dict(base_case(tuple(s['kinds'])), switches=[tuple(x) for x in s['switches']])
-                _, _, bad, _ = run_one(c, cache)
+                c = dict(base_case(tuple(s['kinds']), s.get('cfg', 'plain')), switches=[tuple(x) for x in s['switches']])
+                bad = tsconc.pristine(lambda: run_one(c, {})[2])
                 evals += 1
                 if bad:
                     out.append(Finding('C08:' + bad[0], bad[1], dict(case=c)))
-            except sched.SchedTimeout as e:
+            except (sched.SchedTimeout, tsconc.ChildFailed) as e:
                 raise core.Infra(str(e))
         return evals, out
 
@@ -320,15 +389,21 @@ class C08(Check):
         case['threads'] = {int(k): [tuple(it) if it[0] == 'construct' else ('serve', _detuple(it[1])) for it in v]
                            for k, v in case['threads'].items()}
         case['switches'] = [tuple(x) for x in case['switches']]
+        case['cfg'] = {int(k): dict(v, before=[tuple(o) for o in v.get('before', [])],
+                                   after=[tuple(o) for o in v.get('after', [])])
+                       for k, v in (case.get('cfg') or {}).items()}
         cache = {}
         try:
-            line, ans, bad, w = run_one(case, cache)
-        except sched.SchedTimeout as e:
+            solo = {t: [o for it in items if it[0] == 'serve' for o in solo_obs(it[1], cache, case.get('cfg'))]
+                    for t, items in case['threads'].items()}
+
+            def go():
+                line, ans, bad, w = run_one(case, cache)
+                return bad, w.sched.order, {t: w.obs.get(t, []) for t in case['threads']}
+            bad, order, observed = tsconc.pristine(go)
+        except (sched.SchedTimeout, tsconc.ChildFailed) as e:
             raise core.Infra(str(e))
-        solo = {t: [o for it in items if it[0] == 'serve' for o in solo_obs(it[1], cache)]
-                for t, items in case['threads'].items()}
-        return dict(switches=case['switches'], executed_order=w.sched.order,
-                    observed={t: w.obs.get(t, []) for t in case['threads']}, served_alone=solo,
+        return dict(switches=case['switches'], executed_order=order, observed=observed, served_alone=solo,
                     verdict=('differs: %s' % (bad,) if bad else 'equal to the solo runs'))
 
 
